@@ -140,8 +140,24 @@ def _episode_dataset_wrapper(rec, real, discrete):
     def sample_trajectories(*a, **k):
         ds = real(*a, **k)
         jax.effects_barrier()
+        # what the learners receive are the flattened rows of prepare_policy_gradient_dataset (observation, action,
+        # successor observation per sample): the kept transition is judged in THAT form; the raw episode record is
+        # used where the prepared view is not available (rewards are only kept in the record)
+        prep = None
+        try:
+            env = a[0] if a else k.get("env")
+            po, pa, pn = (np.asarray(x) for x in ds.prepare_policy_gradient_dataset(env.action_space, 1.0)[:3])
+            if len(po) == len(pa) == len(pn) == sum(len(ep) for ep in ds.episodes):
+                start = getattr(env.action_space, "start", 0) if discrete else 0
+                prep = (po, pa + start if discrete else pa, pn)
+        except Exception:  # noqa: BLE001
+            prep = None
+        j = 0
         for i, ep in enumerate(ds.episodes):
             for t, (o, act, no, r) in enumerate(ep):
+                if prep is not None:
+                    o, act, no = prep[0][j], prep[1][j], prep[2][j]
+                j += 1
                 rec.emit("add", env=0, obs=decode_obs(o), act=_act(act, discrete), r4=_r4(r), next=decode_obs(no), term=False, chk_term=False,
                          episode=i, t=t)
         return ds
